@@ -17,11 +17,16 @@ func rulesC15(c *Ctx) {
 		"R15.1 diff treats all five tables in both directions and files every operation in the right bucket (top-level kinds → TopLevel, groups → NHG, next-hops → NH; new → Add, existing-but-different → Replace, target-only → Delete), with the builder of the table's own kind",
 		"R15.2 every network instance of the target is enumerated (what only the target has can only be deleted if its instances are walked)",
 		"R15.3 ids: exactly one id.Add(1) before each builder call; each builder stamps Id: id.Load(), the given network instance, the given method and the payload of rib.Concrete<Kind>Proto of its entry",
+		"R15.5 (shared with C03) a replace leaves the target's reference counts equal to what is installed: handleReferences / handleNHGReferences release exactly the replaced references — otherwise the deletes of a later reconciliation are refused and the target never converges",
 		"R15.4 equal ⇒ silent: every operation is emitted under a difference test (missing on the other side, or not DeepEqual)")
 	c.NotDec = append(c.NotDec, "that applying the operations in the documented order succeeds and converges (an execution)", "DeepEqual semantics on ygot structs")
 	ruleDiffLoops(c)
 	ruleDiffInstances(c)
 	ruleOpBuilders(c)
+	// the emitted REPLACE / DELETE operations are accepted by the target only if its
+	// deletion protection matches what is installed after a replace (shared with C03)
+	ruleHandleReferencesTable(c)
+	ruleNHGReferences(c)
 }
 
 const recPkg = modPath + "/rib/reconciler"
@@ -62,11 +67,19 @@ func diffSide(info *types.Info, fi *FuncInfo, o types.Object, depth int) int {
 				} else if len(s.Rhs) == 1 && i == 0 {
 					rhs = s.Rhs[0]
 				}
+				if rhs == nil {
+					continue
+				}
 				if ie, ok := ast.Unparen(rhs).(*ast.IndexExpr); ok {
 					if r, _ := selectorPath(info, ie.X); r != nil && r != o {
 						if sd := diffSide(info, fi, r, depth+1); sd >= 0 {
 							side = sd
 						}
+					}
+				} else if r, _ := selectorPath(info, rhs); r != nil && r != o {
+					// alias of a part of one side: x := y.GetAfts()
+					if sd := diffSide(info, fi, r, depth+1); sd >= 0 {
+						side = sd
 					}
 				}
 			}
@@ -328,6 +341,7 @@ func ruleDiffInstances(c *Ctx) {
 		return
 	}
 	covers := map[int]bool{}
+	var filtered []string
 	for _, rs := range outers {
 		root, _ := selectorPath(info, rs.X)
 		if sd := diffSide(info, fi, root, 0); sd >= 0 {
@@ -345,19 +359,66 @@ func ruleDiffInstances(c *Ctx) {
 			if sd < 0 {
 				return true
 			}
-			for _, st := range r2.Body.List {
-				if as, ok := st.(*ast.AssignStmt); ok && len(as.Lhs) == 1 {
-					if ie, ok := ast.Unparen(as.Lhs[0]).(*ast.IndexExpr); ok && objOfIdent(info, ie.X) == root && objOfIdent(info, ie.Index) == objOfIdent(info, r2.Key) {
-						covers[sd] = true
+			// the name is added on every path through the filling loop's body (no filter)
+			ev := func(nd ast.Node) []Event {
+				var out []Event
+				inspectNoFuncLit(nd, func(m ast.Node) bool {
+					if as, ok := m.(*ast.AssignStmt); ok && len(as.Lhs) == 1 {
+						if ie, ok := ast.Unparen(as.Lhs[0]).(*ast.IndexExpr); ok && objOfIdent(info, ie.X) == root && objOfIdent(info, ie.Index) == objOfIdent(info, r2.Key) && r2.Key != nil {
+							out = append(out, Event{Kind: "add", Node: as})
+						}
 					}
+					return true
+				})
+				return out
+			}
+			if len(ev(r2.Body)) == 0 {
+				return true // not a loop filling the set of names
+			}
+			paths, pe := enumPaths(info, r2.Body.List, ev)
+			adds, all := 0, !pe.overflow && len(paths) > 0
+			for _, p := range paths {
+				if p.has("add") {
+					adds++
+				} else if p.End != "panic" {
+					all = false
+					filtered = append(filtered, fmt.Sprintf("an instance of the %s RIB can be left out of the walk: %s", []string{"intended", "target"}[sd], p.describe(c.P)))
 				}
+			}
+			if adds > 0 && all {
+				covers[sd] = true
 			}
 			return true
 		})
 	}
+	// inside the instance loop nothing skips the table loops: no continue/break outside them, returns only with an error
+	for _, rs := range outers {
+		var walk func(n ast.Node)
+		walk = func(n ast.Node) {
+			ast.Inspect(n, func(m ast.Node) bool {
+				switch x := m.(type) {
+				case *ast.RangeStmt:
+					if tableOfExpr(info, x.X) != "" {
+						return false // the table loops have their own rule
+					}
+				case *ast.FuncLit:
+					return false
+				case *ast.BranchStmt:
+					filtered = append(filtered, "the instance loop can skip table loops ("+x.Tok.String()+" at "+c.P.pos(x.Pos())+")")
+				case *ast.ReturnStmt:
+					if n := len(x.Results); n == 0 || isNilIdent(info, x.Results[n-1]) {
+						filtered = append(filtered, "the instance loop can return without an error before all tables were compared ("+c.P.pos(x.Pos())+")")
+					}
+				}
+				return true
+			})
+		}
+		walk(rs.Body)
+	}
 	c.Sites += len(outers)
 	c.check(covers[0], rule, fi.Name, "instances of the intended RIB are walked", c.P.pos(outers[0].Pos()), "instance loop covers the intended RIB's instances", "the network instances of the intended RIB are not enumerated")
 	c.check(covers[1], rule, fi.Name, "instances of the target RIB are walked", c.P.pos(outers[0].Pos()), "instance loop covers the target RIB's instances", "diff only walks the network instances of the intended RIB: entries in an instance that only the target has are never deleted")
+	c.check(len(filtered) == 0, rule, fi.Name, "no instance and no table is skipped", c.P.pos(outers[0].Pos()), "every instance of either side is walked, and within an instance no path bypasses the table loops", strings.Join(filtered, " ‖ "))
 }
 
 // R15.3
